@@ -8,53 +8,80 @@ open Ak
 
 /-! ## chunks, resize, fit -/
 
-theorem chunksLen_eq (cs : Chunks) : chunksLen cs = cs.flatten.length := by
+theorem textOf_cons (c : CHText.Chunk) (cs : Chunks) : textOf (c :: cs) = c.text ++ textOf cs := by
+  simp [textOf]
+
+theorem textOf_append (a b : Chunks) : textOf (a ++ b) = textOf a ++ textOf b := by
+  simp [textOf]
+
+theorem textOf_plain (s : List Char) : textOf [plain s] = s := by simp [textOf, plain]
+
+theorem chunksLen_eq (cs : Chunks) : CHText.calcChunksLen cs = (textOf cs).length := by
   induction cs with
   | nil => rfl
-  | cons c cs ih => simp [chunksLen, ih]
+  | cons c cs ih => simp [CHText.calcChunksLen, textOf_cons, ih]
 
-theorem blanks_length (n : Nat) : (blanks n).length = n := by simp [blanks]
+theorem blanks_length (n : Nat) : (blanks n).length = n := by simp [blanks, CHText.spaces]
 
-theorem resizeLoop_zero (cs : Chunks) : (resizeLoop cs 0).flatten = [] := by
+theorem blanks_zero : blanks 0 = [] := by simp [blanks, CHText.spaces]
+
+theorem resizeLoop_zero (cs : Chunks) : textOf (CHText.resizeLoop cs 0) = [] := by
   cases cs with
-  | nil => simp [resizeLoop, blanks]
-  | cons c cs => simp [resizeLoop]
+  | nil => simp [CHText.resizeLoop, textOf, CHText.spaces]
+  | cons c cs => simp [CHText.resizeLoop, textOf]
 
 theorem resizeLoop_flatten (cs : Chunks) (n : Nat) :
-    (resizeLoop cs n).flatten = (cs.flatten ++ blanks (n - cs.flatten.length)).take n := by
+    textOf (CHText.resizeLoop cs n) = (textOf cs ++ blanks (n - (textOf cs).length)).take n := by
   induction cs generalizing n with
-  | nil => simp [resizeLoop, blanks]
+  | nil => simp [CHText.resizeLoop, textOf, blanks, CHText.spaces]
   | cons c cs ih =>
-    unfold resizeLoop
+    unfold CHText.resizeLoop
     by_cases h0 : n = 0
-    · simp [h0]
+    · simp [h0, textOf]
     · simp only [h0, if_false]
-      by_cases hle : c.length ≤ n
-      · rw [if_pos hle, List.flatten_cons, List.flatten_cons, ih, List.append_assoc,
-          List.take_append (l₁ := c), List.take_of_length_le hle, List.length_append, Nat.sub_add_eq]
-      · simp only [hle, if_false, List.flatten_cons, resizeLoop_zero, List.append_nil]
-        have : n ≤ c.length := by omega
+      by_cases hle : c.text.length ≤ n
+      · rw [if_pos hle, textOf_cons, textOf_cons, ih, List.append_assoc,
+          List.take_append (l₁ := c.text), List.take_of_length_le hle, List.length_append, Nat.sub_add_eq]
+      · simp only [hle, if_false, textOf_cons, resizeLoop_zero, List.append_nil]
+        have : n ≤ c.text.length := by omega
         rw [List.append_assoc, List.take_append_of_le_length this]
 
 theorem resizeChunks_flatten (cs : Chunks) (n : Nat) :
-    (resizeChunks cs n).flatten = (cs.flatten ++ blanks (n - cs.flatten.length)).take n := by
+    textOf (resizeChunks cs n) = (textOf cs ++ blanks (n - (textOf cs).length)).take n := by
   unfold resizeChunks
   simp only [chunksLen_eq]
-  by_cases h1 : cs.flatten.length = n
-  · simp only [h1, if_true, Nat.sub_self, blanks, List.replicate_zero, List.append_nil]
+  by_cases h1 : (textOf cs).length = n
+  · simp only [h1, if_true, Nat.sub_self, blanks_zero, List.append_nil]
     rw [List.take_of_length_le (by omega)]
   · simp only [h1, if_false]
-    by_cases h2 : cs.flatten.length < n
-    · simp only [h2, if_true, List.flatten_append, List.flatten_cons, List.flatten_nil, List.append_nil]
+    by_cases h2 : (textOf cs).length < n
+    · simp only [h2, if_true, textOf_append, textOf_plain]
       rw [List.take_of_length_le]
       rw [List.length_append, blanks_length]; omega
     · simp only [h2, if_false]
       exact resizeLoop_flatten cs n
 
 /-- text of a resized chunk list when it has to be cut -/
-theorem resizeChunks_take (cs : Chunks) (n : Nat) (h : n ≤ cs.flatten.length) :
-    (resizeChunks cs n).flatten = cs.flatten.take n := by
+theorem resizeChunks_take (cs : Chunks) (n : Nat) (h : n ≤ (textOf cs).length) :
+    textOf (resizeChunks cs n) = (textOf cs).take n := by
   rw [resizeChunks_flatten, List.take_append_of_le_length h]
+
+/-- `Table.resizeChunks` is C08's `resize_chunks_list` -/
+theorem resizeChunks_eq_chtext (cs : Chunks) (n : Nat) :
+    CHText.resizeChunks cs (n : Int) = .ok (resizeChunks cs n) := by
+  unfold CHText.resizeChunks resizeChunks
+  have h0 : ¬ ((n : Int) < 0) := by omega
+  simp only [h0, if_false]
+  by_cases h1 : CHText.calcChunksLen cs = n
+  · simp [h1]
+  · have h1' : ¬ ((CHText.calcChunksLen cs : Int) = (n : Int)) := by omega
+    simp only [h1, h1', if_false]
+    by_cases h2 : CHText.calcChunksLen cs < n
+    · have h2' : (CHText.calcChunksLen cs : Int) < (n : Int) := by omega
+      have h3 : ((n : Int) - (CHText.calcChunksLen cs : Int)).toNat = n - CHText.calcChunksLen cs := by omega
+      simp [h2, h2', h3, plain, blanks]
+    · have h2' : ¬ (CHText.calcChunksLen cs : Int) < (n : Int) := by omega
+      simp [h2, h2']
 
 /-- the padded / truncated text a cell of width `w` shows -/
 def fitSpec (text : List Char) (w : Nat) (a : Align) : List Char :=
@@ -68,28 +95,27 @@ def fitSpec (text : List Char) (w : Nat) (a : Align) : List Char :=
     text.take (w - min Gen.C12.dotsMax w) ++ List.replicate (min Gen.C12.dotsMax w) Gen.C12.dotChar
 
 theorem fitToWidth_flatten (cs : Chunks) (w : Nat) (a : Align) :
-    (fitToWidth cs w a).flatten = fitSpec cs.flatten w a := by
+    textOf (fitToWidth cs w a) = fitSpec (textOf cs) w a := by
   unfold fitToWidth fitSpec
   simp only [chunksLen_eq]
-  by_cases h1 : cs.flatten.length = w
-  · have hle : cs.flatten.length ≤ w := by omega
+  by_cases h1 : (textOf cs).length = w
+  · have hle : (textOf cs).length ≤ w := by omega
     simp only [h1, if_true, Nat.le_refl, Nat.sub_self]
-    cases a <;> simp [blanks]
+    cases a <;> simp [blanks_zero]
   · simp only [h1, if_false]
-    by_cases h2 : cs.flatten.length < w
-    · have hle : cs.flatten.length ≤ w := by omega
+    by_cases h2 : (textOf cs).length < w
+    · have hle : (textOf cs).length ≤ w := by omega
       simp only [h2, hle, if_true]
-      cases a <;> simp [blanks]
-    · have hle : ¬ cs.flatten.length ≤ w := by omega
+      cases a <;> simp [plain, textOf]
+    · have hle : ¬ (textOf cs).length ≤ w := by omega
       simp only [h2, hle, if_false]
-      rw [List.flatten_append, resizeChunks_take cs _ (by omega)]
-      simp
+      rw [textOf_append, resizeChunks_take cs _ (by omega), textOf_plain]
 
 theorem fitSpec_length (text : List Char) (w : Nat) (a : Align) : (fitSpec text w a).length = w := by
   unfold fitSpec
   by_cases h : text.length ≤ w
   · simp only [h, if_true]
-    cases a <;> simp [blanks] <;> omega
+    cases a <;> simp [blanks_length] <;> omega
   · simp only [h, if_false, List.length_append, List.length_take, List.length_replicate]
     omega
 
